@@ -313,7 +313,7 @@ let run_inv_line (line : string) =
         else match c.stack with
           | [] -> if c.unw then Some c.st else Some c.st
           | _ ->
-            if not (step_ok c) then (incr inv_cut; None)
+            if not (step_ok c) then (incr inv_cut; Printf.printf "CUT %s %d\n" id idx; None)
             else let out = step pri c in classify_step c out; match out with
               | Running c' -> if n > 200000 then None else steps idx (n + 1) pri c'
               | Finished (s, _) -> Some s
